@@ -69,7 +69,7 @@ def build(d, symbolic=False):
           return [conv(y) for y in x]
         if isinstance(x, dict) and '$t' in x:
           return tuple(conv(y) for y in x['$t'])
-        if isinstance(x, (int, float)) and not isinstance(x, bool):
+        if x is None or (isinstance(x, (int, float)) and not isinstance(x, bool)):
           return x
         raise core.InvalidCase(d)
       try:
